@@ -4,6 +4,7 @@ The oracle is written from the property statement and the ``sort`` paragraph of 
 docstring only.  It never sorts: it looks at every pair of shown elements and asks Python's
 own ``<`` / ``==`` whether that pair may stand in that order.
 """
+import collections
 import datetime
 import decimal
 import itertools
@@ -179,6 +180,154 @@ for _n in ('sort', 'reverse', 'append', 'extend', 'insert', 'pop', 'remove', 'cl
     setattr(WatchedList, _n, _mut(_n))
 
 
+# ------------------------------------------------------------------ containers
+class OnlyIter:
+    """re-iterable, nothing but __iter__."""
+
+    def __init__(self, data):
+        self._data = data
+
+    def __iter__(self):
+        return iter(self._data)
+
+
+class SizedIter(OnlyIter):
+    """__iter__ and __len__, not subscriptable."""
+
+    def __len__(self):
+        return len(self._data)
+
+
+class GetitemOnly:
+    """old sequence protocol: __getitem__ raising IndexError past the end, no __len__."""
+
+    def __init__(self, data):
+        self._data = data
+
+    def __getitem__(self, i):
+        return self._data[i]
+
+
+class SeqClass(GetitemOnly):
+    """subscriptable sequence that is no list: __getitem__ and __len__ only."""
+
+    def __len__(self):
+        return len(self._data)
+
+
+def _same(x):
+    return x
+
+
+def _gen(items):
+    for x in items:
+        yield x
+
+
+OLD_CONTAINERS = ['list', 'watched', 'tuple']
+ONESHOT = ['iter', 'generator', 'map', 'chain']            # consumed by one rendering
+REITERABLE = ['dict_values', 'dict_keys', 'dict_items', 'dict', 'set', 'frozenset',
+              'only_iter', 'sized_iter', 'getitem_only']     # not subscriptable, can be walked again
+SUBSCRIPTABLE = ['deque', 'userlist', 'seqclass']          # subscriptable, but no list / tuple
+NEW_CONTAINERS = ONESHOT + REITERABLE + SUBSCRIPTABLE
+UNORDERED = ('set', 'frozenset')
+NEED_DISTINCT = ('set', 'frozenset', 'dict_keys', 'dict')  # elements become set members / dict keys
+FALLBACK = 'dict_values'
+
+
+def effective_container(name, items):
+    """the container kind actually built: set members / dict keys must be hashable and pairwise
+    unequal, dict.items() needs 2-tuples with such first parts; otherwise dict.values() is used."""
+    if name in NEED_DISTINCT:
+        keys = items
+    elif name == 'dict_items':
+        if not all(type(x) is tuple and len(x) == 2 for x in items):
+            return FALLBACK
+        keys = [x[0] for x in items]
+    else:
+        return name
+    try:
+        for k in keys:
+            hash(k)
+    except TypeError:
+        return FALLBACK
+    for i in range(len(keys)):
+        for j in range(i):
+            if keys[i] == keys[j]:
+                return FALLBACK
+    return name
+
+
+def make_container(name, items):
+    if name == 'list':
+        return list(items)
+    if name == 'tuple':
+        return tuple(items)
+    if name == 'watched':
+        return WatchedList(items)
+    if name == 'iter':
+        return iter(items)
+    if name == 'generator':
+        return _gen(items)
+    if name == 'map':
+        return map(_same, items)
+    if name == 'chain':
+        h = len(items) // 2
+        return itertools.chain(items[:h], items[h:])
+    if name == 'dict_values':
+        return dict(enumerate(items)).values()
+    if name == 'dict_keys':
+        return dict.fromkeys(items).keys()
+    if name == 'dict':
+        return dict.fromkeys(items)
+    if name == 'dict_items':
+        return dict(items).items()
+    if name == 'set':
+        return set(items)
+    if name == 'frozenset':
+        return frozenset(items)
+    if name == 'only_iter':
+        return OnlyIter(list(items))
+    if name == 'sized_iter':
+        return SizedIter(list(items))
+    if name == 'getitem_only':
+        return GetitemOnly(list(items))
+    if name == 'seqclass':
+        return SeqClass(list(items))
+    if name == 'deque':
+        return collections.deque(items)
+    if name == 'userlist':
+        return collections.UserList(items)
+    raise ValueError(name)
+
+
+class Source:
+    """what the caller hands to dtml-in: one object rendered again and again, or -- for the
+    one-shot kinds -- a new iterator over the same (private) list for every rendering."""
+
+    def __init__(self, name, items):
+        self.name = name
+        self.items = list(items)       # the elements in the order the container yields them
+        self.oneshot = name in ONESHOT
+        self.obj = None if self.oneshot else make_container(name, self.items)
+
+    def get(self):
+        if self.oneshot:
+            return make_container(self.name, self.items)
+        return self.obj
+
+    def contents(self):
+        """the elements now in the container, read without the protocols the engine uses."""
+        if self.oneshot:
+            return self.items
+        data = getattr(self.obj, '_data', None)
+        if data is not None:
+            return data
+        if isinstance(self.obj, collections.UserList):
+            return self.obj.data
+        return list(self.obj)
+
+
 class Row:
     """model record of one input element."""
     __slots__ = ('idx', 'uid', 'keys', 'item', 'ident', 'label', 'token', 'snap')
@@ -248,17 +397,29 @@ def build(case, log):
                 r.token = r.uid
         rows.append(r)
         seq.append(r.item)
-    cont = case.get('container', 'list')
-    if cont == 'tuple':
-        seq = tuple(seq)
-    elif cont == 'watched':
-        seq = WatchedList(seq)
-    return seq, rows
+    src = Source(effective_container(case.get('container', 'list'), seq), seq)
+    if src.name in UNORDERED:
+        # a set has no order of its own making: "original relative order" is the order in which this
+        # very object yields its elements (fixed as long as nobody modifies it)
+        by = dict((r.item, r) for r in rows)
+        rows = [by[x] for x in list(src.obj)]
+        for i, r in enumerate(rows):
+            r.idx = i
+        src.items = [r.item for r in rows]
+    return src, rows
 
 
-def fingerprint(seq, rows):
-    """identity + content of the caller's sequence and of every element."""
-    out = [type(seq), len(seq), [id(x) for x in seq]]
+def norm_id(x):
+    """identity of an element; of its two parts for a 2-tuple (dict.items() makes new tuples)."""
+    if type(x) is tuple and len(x) == 2:
+        return (id(x[0]), id(x[1]))
+    return id(x)
+
+
+def fingerprint(src, rows):
+    """identity + content of the caller's sequence and of every element.  For a one-shot iterable
+    (consumed by design) the container part is the private list it was drawn from."""
+    out = [src.name, type(src.obj), [norm_id(x) for x in src.contents()]]
     for r in rows:
         it = r.item
         if isinstance(it, tuple):
